@@ -185,24 +185,28 @@ def check(case):
                {JN.JOINT_DEGREE_TYPE: JointDegreeType.COVER, JN.COVER: copy.deepcopy(cover)})
     if ld2.jdd != jdd or list(ld2.motif_sizes) != sizes:
         raise Violation("dispatch-differs", f"dispatcher gives {ld2.jdd} / {ld2.motif_sizes}")
-    # sampling + generation with clique motifs of the reported sizes
-    with rng.seeded(case["seed"]):
-        jds = call("sample", ld.sample_jds_from_jdd, V)
-        gen = GCMAlgorithmFast({GN.MOTIF_SIZES: list(ld.motif_sizes), GN.BUILD_FUNCTIONS: [clique_motif] * len(sizes),
-                                GN.EDGE_NAMES: [f"{s}-clique" for s in sizes]})
-        el = call("generate", gen.random_clustered_graph, jds)
-    cols = [sum(c) for c in zip(*jds)]
-    if any(c % s for c, s in zip(cols, sizes)):
-        raise Violation("sample-handshake", f"sampled column sums {cols} vs sizes {sizes}")
-    # every reported size s yields cols/s cliques with s(s-1)/2 edges each: the generated clique-size profile
-    per_id = Counter(el.motif_id)
-    got_profile = Counter(per_id.values())
-    want_profile = Counter()
-    for c, s in zip(cols, sizes):
-        if c and s >= 2:  # 1-cliques have no edges and therefore no rows / ids
-            want_profile[s * (s - 1) // 2] += c // s
-    if got_profile != want_profile:
-        raise Violation("generate-profile", f"generated motifs by edge count {dict(got_profile)}, expected {dict(want_profile)}")
+    # sampling + generation with clique motifs of the reported sizes: as many vertices as the cover has, and very few
+    # (fewer vertices than the largest clique has members)
+    for Ns in (V, 1, 2, 3):
+        with rng.seeded(case["seed"] + Ns):
+            jds = call("sample", ld.sample_jds_from_jdd, Ns)
+            gen = GCMAlgorithmFast({GN.MOTIF_SIZES: list(ld.motif_sizes), GN.BUILD_FUNCTIONS: [clique_motif] * len(sizes),
+                                    GN.EDGE_NAMES: [f"{s}-clique" for s in sizes]})
+            el = call("generate", gen.random_clustered_graph, jds)
+        if len(jds) != Ns:
+            raise Violation("sample-length", f"asked for {Ns} joint degrees, got {len(jds)}")
+        cols = [sum(c) for c in zip(*jds)]
+        if any(c % s for c, s in zip(cols, sizes)):
+            raise Violation("sample-handshake", f"{Ns} sampled joint degrees {jds}: column sums {cols} vs sizes {sizes}")
+        # every reported size s yields cols/s cliques with s(s-1)/2 edges each: the generated clique-size profile
+        per_id = Counter(el.motif_id)
+        got_profile = Counter(per_id.values())
+        want_profile = Counter()
+        for c, s in zip(cols, sizes):
+            if c and s >= 2:  # 1-cliques have no edges and therefore no rows / ids
+                want_profile[s * (s - 1) // 2] += c // s
+        if got_profile != want_profile:
+            raise Violation("generate-profile", f"generated motifs by edge count {dict(got_profile)}, expected {dict(want_profile)}")
     gaps = [s for s in range(2, max(sizes)) if s not in sizes]
     if len(sizes) >= 2:
         classes.add("ge2_sizes")
